@@ -130,6 +130,7 @@ func c18DrawItem(rt *rapid.T, i int) *c18Item {
 		o.MaxLongString = 3000
 		o.TypeDepth = 2
 		fc := gen.Frame(rt, v, comp != compNone, o)
+		comp = lz4Safe(fc.Frame, comp)
 		codec := sharedFrame[comp]
 		f := fc.Frame
 		return &c18Item{name: "raw/" + comp.String(), run: func() (string, error) {
@@ -168,6 +169,7 @@ func c18DrawItem(rt *rapid.T, i int) *c18Item {
 		o.MaxLongString = 3000
 		o.TypeDepth = 2
 		fc := gen.Frame(rt, v, comp != compNone, o)
+		comp = lz4Safe(fc.Frame, comp)
 		codec := sharedFrame[comp]
 		f := fc.Frame
 		return &c18Item{name: "frame/" + comp.String(), run: func() (string, error) {
@@ -289,6 +291,22 @@ func c18DrawItem(rt *rapid.T, i int) *c18Item {
 			return digestBytes(c.Bytes()) + "/" + digestBytes(d.Bytes()), nil
 		}}
 	}
+}
+
+// lz4Safe keeps bodies that the library would LZ4-compress at or below 64 KiB: above that the pinned LZ4 dependency may
+// emit an undecodable block (open finding DEP-lz4-offset-wrap-65536, judged by C01/C08), and whether it does depends on
+// the iteration order of wire maps, i.e. differs from call to call. Larger frames go through the codec uncompressed.
+func lz4Safe(f *frame.Frame, comp compKind) compKind {
+	if comp != compLz4 {
+		return comp
+	}
+	probe := f.DeepCopy()
+	probe.SetCompress(false)
+	if enc, err := encodeFrame(newRawCodec(compNone), probe); err != nil || len(enc) > 65536 {
+		f.SetCompress(false)
+		return compNone
+	}
+	return comp
 }
 
 var freshCounter atomic.Int64
